@@ -436,6 +436,10 @@ func (l *listener) Close() error {
 	if l.listener != nil {
 		_ = l.listener.Close()
 	}
+	if l.htsvr != nil {
+		// Also drop connections that have not completed the upgrade.
+		_ = l.htsvr.Close()
+	}
 	l.closed = true
 	l.running = false
 	l.cv.Broadcast()
